@@ -80,7 +80,7 @@ WriteOk(r, cs, w) ==
 \* while an exclusive-borrow collection is filled it writes its elements into the prepared free range; finalising moves
 \* them to the bump side of that range: these steps may write anywhere inside the content range of the current chunk
 \* (header included: a write range may straddle both) that is not a live block (live blocks are covered by the damage check)
-PrepWrite(r) == r.a \in {"prep_push", "prep_commit", "try_with"}   \* (alloc_try_with constructs the Result in free space first)
+PrepWrite(r) == r.a \in {"prep_push", "prep_reserve", "prep_commit", "try_with"}   \* (alloc_try_with constructs the Result in free space first)
 InChunk(cs, lo, hi) == \E i \in 1..Len(cs) : lo >= cs[i].start /\ hi <= cs[i].start + cs[i].size
 
 C02_Viol(r) ==
@@ -127,8 +127,8 @@ C03_Again(r) ==
 (* C05  every chunk returned exactly once and fits                         *)
 (***************************************************************************)
 BaseEvs(r) == r.o.base
-MayRelease(r) == r.a \in {"reset", "drop", "final"}
-MayAcquire(r) == r.a \in {"ctor", "alloc", "grow", "shrink", "reserve", "enter", "prep_push", "try_with"} \* enter: by_value / claim on unallocated
+MayRelease(r) == r.a \in {"reset", "drop", "final"} \/ (r.a = "with_settings" /\ r.o.res = "panic")
+MayAcquire(r) == r.a \in {"ctor", "alloc", "grow", "shrink", "reserve", "enter", "prep_push", "prep_reserve", "try_with"} \* enter: by_value / claim on unallocated
 FreeOk(gs, ev) ==
     \E g \in 1..Len(gs) : /\ gs[g].addr = ev[2] /\ ~gs[g].live /\ gs[g].frees = 1
                           /\ gs[g].align = ev[4] /\ ev[3] >= gs[g].req /\ ev[3] <= gs[g].size
@@ -137,7 +137,7 @@ C05_Viol(r) ==
     \/ \E k \in 1..Len(evs) : evs[k][1] = "free" /\ (~MayRelease(r) \/ ~FreeOk(gs, evs[k]))
     \/ \E k \in 1..Len(evs) : evs[k][1] = "alloc" /\ ~MayAcquire(r)
     \/ \E g \in 1..Len(gs) : gs[g].frees > 1 \/ (gs[g].live <=> gs[g].frees # 0)
-    \/ r.a \in {"drop", "final"} /\ \E g \in 1..Len(gs) : gs[g].live          \* nothing outstanding after drop
+    \/ (r.a \in {"drop", "final"} \/ (r.a = "with_settings" /\ r.o.res = "panic")) /\ \E g \in 1..Len(gs) : gs[g].live   \* nothing outstanding after drop
     \/ r.a = "reset" /\ Ok(r) /\                                               \* reset keeps exactly the largest
          LET live == {g \in 1..Len(gs) : gs[g].live} IN
          \/ Cardinality(live) > 1
@@ -199,7 +199,7 @@ C13_Viol(r) ==
     \* dealloc + same request (composite step "realloc"): same address when the antecedent holds
     \/ r.a = "alloc" /\ Has(r.args, "reuse") /\ r.args.reuse /\ Ok(r) /\ Has(r.o, "freed") /\ r.o.addr # r.o.freed
     \* growing the most recent allocation in an upward arena with room: same address
-    \/ r.a = "grow" /\ Ok(r) /\ r.cfg.up /\ r.exp.x.waslast /\ r.args.osz % r.o.ma = 0 /\ r.o.oaddr % r.args.al = 0
+    \/ r.a = "grow" /\ Ok(r) /\ r.cfg.up /\ r.exp.x.waslast /\ r.args.osz % r.o.ma = 0 /\ r.o.oaddr % r.o.ma = 0 /\ r.o.oaddr % r.args.al = 0
          /\ LET cs == Chunks(r.o) IN
             (\E i \in 1..Len(cs) : r.o.oaddr >= cs[i].lo /\ r.o.oaddr + r.args.sz <= cs[i].hi) /\ r.o.addr # r.o.oaddr
     \* any other deallocate reclaims nothing
@@ -242,7 +242,7 @@ C14_Viol(r) ==
 (***************************************************************************)
 (* C18  changing the minimum alignment                                     *)
 (***************************************************************************)
-AlignedFrame(r) == r.a \in {"enter", "exit"} /\ r.args.kind \in {"aligned", "saligned"}
+AlignedFrame(r) == r.a \in {"enter", "exit"} /\ r.args.kind \in {"aligned", "saligned", "bmws"}
 PosAligned(o, n) == o.cur = 0 \/ o.chunks[o.cur][5] % n = 0
 C18_Viol(r) ==
     \/ r.a = "enter" /\ AlignedFrame(r) /\ (r.o.res # "ok" \/ r.o.ma # r.args.n \/ ~PosAligned(r.o, r.args.n))
@@ -250,12 +250,18 @@ C18_Viol(r) ==
     \/ r.a = "exit" /\ AlignedFrame(r) /\ (r.o.res # "ok" \/ ~PosAligned(r.o, r.o.ma))     \* outer alignment again
     \/ r.a = "exit" /\ r.args.kind = "saligned" /\ C03_Viol(r)                          \* exactly the entry position
     \/ IsStep(r) /\ (r.exp.inaligned \/ AlignedFrame(r)) /\ (r.o.damaged # <<>> \/ C01_Viol(r))
+    \* Bump::with_settings: panics exactly when the new settings are guaranteed-allocated and the arena is unallocated;
+    \* otherwise the position is a multiple of the new minimum alignment and every block is intact
+    \/ r.a = "with_settings" /\
+         \/ (r.args.ga /\ r.o.pp = <<0, 0>>) # (r.o.res = "panic")
+         \/ r.o.res \notin {"ok", "panic"}
+         \/ r.o.res = "ok" /\ (r.o.ma # r.args.ma \/ ~PosAligned(r.o, r.args.ma) \/ r.o.damaged # <<>> \/ C01_Viol(r))
 
 (***************************************************************************)
 (* C15  exclusive-borrow collections use free space without moving the     *)
 (*      pointer; finalising advances it by the contents plus padding       *)
 (***************************************************************************)
-PrepFill(r) == (r.a = "enter" /\ r.args.kind = "prep") \/ r.a \in {"prep_push", "prep_drop"}
+PrepFill(r) == (r.a = "enter" /\ r.args.kind = "prep") \/ r.a \in {"prep_push", "prep_reserve", "prep_drop"}
 Abs(x) == IF x < 0 THEN 0 - x ELSE x
 C15_Viol(r) ==
     \/ PrepFill(r) /\ Has(r.o, "echunks") /\
